@@ -32,6 +32,7 @@ BAD, CYCLIC = [0], [0, 0]
 INVARIANTS = ["MroIsC3", "InconsistentReported", "RefLaws", "FindIsLookup", "SourcesAreOverridden", "DocIsInherited",
               "EarlyIsLookupOrKF"]
 KF_EARLY = "early-lookup-depth-first"
+KF_LATE = "early-lookup-before-base-resolved"
 
 
 def early_order() -> str:
@@ -118,6 +119,26 @@ def render_case(h: int, rec: Dict[str, Any]) -> Dict[str, Any]:
             where[c] = (mn, cname(c), len(lines) + 1)
             lines.append(f"class {cname(c)}({', '.join(bs)}):" if bs else f"class {cname(c)}:")
             lines += body_lines(cname(c), member[c - 1])
+            mods.append((mn, lines))
+        return {"modules": mods, "where": where}
+    if lay["kind"] == "late":
+        # one class per module, plain `import` of the bases' modules, modules ADDED (= analysed) in the order `born`:
+        # a base living in a module analysed later is resolved only in the second pass.  Legal Python: the import graph
+        # follows the (acyclic) hierarchy.  Early lookups directly after the class statement.
+        mods = []
+        where = {}
+        for c in sorted(range(1, n + 1), key=lambda x: rec["born"][x - 1]):
+            mn = f"l{h}_m{c}"
+            lines = [f"import l{h}_m{b}" for b in sorted(set(bases[c - 1]))]
+            bs = [f"l{h}_m{b}.{cname(b)}" + ("[int]" if subscripted(h, c, j) else "") for j, b in enumerate(bases[c - 1])]
+            where[c] = (mn, cname(c), len(lines) + 1)
+            lines.append(f"class {cname(c)}({', '.join(bs)}):" if bs else f"class {cname(c)}:")
+            lines += body_lines(cname(c), member[c - 1], nested=(early == "nested"))
+            if c in early_classes(rec):
+                if early == "alias":
+                    lines.append(f"a{h}_{c} = {cname(c)}.f")
+                elif early == "nested":
+                    lines += [f"class X{h}_{c}({cname(c)}.f):", "    pass"]
             mods.append((mn, lines))
         return {"modules": mods, "where": where}
     if lay["kind"] == "segments":
@@ -485,7 +506,7 @@ def evaluate_case(rec: Dict[str, Any], obs: Dict[str, Any]) -> Tuple[List[Tuple[
             drift.append(("docsources", c, rec["src_pd"][i], obs["src"][i]))
         if not nested and obs["doc"][i] != rec["doc_pd"][i]:
             drift.append(("get_docstring", c, rec["doc_pd"][i], obs["doc"][i]))
-        if c in early_classes(rec) and obs["early"][i] != rec["early_pd"][i]:
+        if c in early_classes(rec) and obs["early"][i] != (rec["early_base_pd" if nested else "early_pd"][i] or -1):
             drift.append(("early_lookup", c, rec["early_pd"][i], obs["early"][i]))
         want_first = [rec["born"][b - 1] < rec["born"][i] for b in rec["bases"][i]]
         if obs["first"][i] != want_first:
@@ -503,6 +524,7 @@ def judge_case(ctx: Ctx, rec: Dict[str, Any], obs: Dict[str, Any], origin: str) 
                        "reference": {"c3": rec["c3"], "own": rec["own"], "find_ref": rec["find_ref"],
                                      "src_ref": rec["src_ref"], "doc_ref": rec["doc_ref"]},
                        "observed": {k: obs[k] for k in ("mro", "warn", "find", "src", "doc", "inherited", "overrides", "early")},
+                       "model": {"early_pd": rec.get("early_pd"), "early_base_pd": rec.get("early_base_pd"), "late": rec.get("late")},
                        "key": f"{origin}:{sorted(set(a for a, _, _, _ in failed))}:{rec['bases']}:{rec['member'] if origin != 'enum' else ''}"[:300]})
     if drift and (not failed or any(d[0] == "early_lookup" for d in drift)):
         ctx.drift_note({"origin": origin, "bases": rec["bases"], "member": rec["member"], "born": rec["born"],
@@ -531,6 +553,24 @@ def kf_early_lookup_depth_first(w: Dict[str, Any]) -> bool:
         if f["invariant"] not in ("EarlyAliasIsLookup", "EarlyBaseIsLookup"):
             return False
         if f["observed"] == f["expected"] or f["observed"] != depth_first_owner(case["bases"], case["member"], f["class"]):
+            return False
+    return True
+
+
+def kf_early_lookup_before_base_resolved(w: Dict[str, Any]) -> bool:
+    """Python twin of MRO!KF_EarlyLookupBeforeBaseResolved: every failed clause is an EARLY lookup through a class above
+    which some base is resolved only in the second pass (LateAbove, evaluated by TLC), and the answer is exactly what the
+    spec's model of the early linearisation (PdEarlyFind, evaluated by TLC) predicts."""
+    if not w.get("failed") or "model" not in w:
+        return False
+    for f in w["failed"]:
+        if f["invariant"] not in ("EarlyAliasIsLookup", "EarlyBaseIsLookup"):
+            return False
+        i = f["class"] - 1
+        if not w["model"]["late"][i] or f["observed"] == f["expected"]:
+            return False
+        want = w["model"]["early_base_pd" if f["invariant"] == "EarlyBaseIsLookup" else "early_pd"][i]
+        if f["observed"] != (want if want else -1):        # model 0 = nothing found: the name stays unresolved (-1)
             return False
     return True
 
@@ -621,13 +661,16 @@ def tlc_cases(ctx: Ctx, source: str, maxn: int, docstates: List[str], out: Dict[
 
 def run(ctx: Ctx) -> int:
     ctx.register_matcher(KF_EARLY, kf_early_lookup_depth_first)
+    ctx.register_matcher(KF_LATE, kf_early_lookup_before_base_resolved)
     ctx.extra["model_early_order"] = early_order()
     rng = random.Random(ctx.seed)
     docstates = ["absent", "nodoc", "doc"] if ctx.quick else ["absent", "nodoc", "doc", "empty"]
     results: Dict[str, Any] = {}
     threads = [threading.Thread(target=tlc_cases, args=(ctx, "enum", 5, docstates, results), kwargs={"coverage": ctx.quick}),
                threading.Thread(target=tlc_cases, args=(ctx, "members", 4, docstates, results)),
-               threading.Thread(target=tlc_cases, args=(ctx, "graph", 3, docstates, results), kwargs={"workers": 2})]
+               threading.Thread(target=tlc_cases, args=(ctx, "graph", 3, docstates, results), kwargs={"workers": 2}),
+               threading.Thread(target=tlc_cases, args=(ctx, "late", 3 if ctx.quick else 4,
+                                                        docstates if ctx.quick else ["absent", "doc"], results), kwargs={"workers": 2})]
     ctx.spec_dir()                      # stage once, before the concurrent TLC runs
     for t in threads:
         t.start()
@@ -642,8 +685,12 @@ def run(ctx: Ctx) -> int:
     graph = sorted(results["graph"].printed, key=sort_key)
     for g in graph:
         g["layout"] = {"kind": "graph"}
-    want = {"enum": 10400, "members": 160 * len(docstates) ** 4, "graph": 125}
-    for name, recs in (("enum", enum), ("members", members), ("graph", graph)):
+    late = sorted(results["late"].printed, key=lambda r: json.dumps([r["bases"], r["member"], r["born"]]))
+    for g in late:
+        g["layout"] = {"kind": "late"}
+    want = {"enum": 10400, "members": 160 * len(docstates) ** 4, "graph": 125,
+            "late": 10 * 27 * 6 if ctx.quick else 160 * 16 * 24}
+    for name, recs in (("enum", enum), ("members", members), ("graph", graph), ("late", late)):
         if len(recs) != want[name]:
             raise MachineryError(f"TLC emitted {len(recs)} {name} cases, expected {want[name]}")
     ctx.exhaustive = True
@@ -675,13 +722,16 @@ def run(ctx: Ctx) -> int:
     # class used as a base), which pydoctor evaluates during analysis, before any MRO exists
     m_alias = [dict(r, early="alias") for r in members]
     m_nested = [dict(r, early="nested") for r in members]
-    all_cases = enum + members + graph + file_cases + file_graphs + m_alias + m_nested
+    l_alias = [dict(r, early="alias") for r in late]
+    l_nested = [dict(r, early="nested") for r in late]
+    all_cases = enum + members + graph + file_cases + file_graphs + m_alias + m_nested + l_alias + l_nested
     origins = (["enum"] * len(enum) + ["members"] * len(members) + ["graph"] * len(graph)
                + ["modules"] * len(file_cases) + ["graph-random"] * len(file_graphs)
-               + ["members-alias"] * len(m_alias) + ["members-nested"] * len(m_nested))
+               + ["members-alias"] * len(m_alias) + ["members-nested"] * len(m_nested)
+               + ["late-alias"] * len(l_alias) + ["late-nested"] * len(l_nested))
     # ---- the spec's reference against CPython (machinery)
-    quirk = cross_check_cpython(ctx, enum + members + file_cases)
-    ctx.extra["cpython_type_cross_checked_cases"] = len(enum) + len(members) + len(file_cases)
+    quirk = cross_check_cpython(ctx, enum + members + file_cases + late)
+    ctx.extra["cpython_type_cross_checked_cases"] = len(enum) + len(members) + len(file_cases) + len(late)
     ctx.extra["inspect_getdoc_differs_from_mro_lookup"] = quirk
     if file_cases:
         ctx.extra["multi_module_programs_imported_by_cpython"] = cpython_import_check(
@@ -766,6 +816,7 @@ def run(ctx: Ctx) -> int:
 
 def replay(ctx: Ctx, path: str) -> int:
     ctx.register_matcher(KF_EARLY, kf_early_lookup_depth_first)
+    ctx.register_matcher(KF_LATE, kf_early_lookup_before_base_resolved)
     w = json.load(open(path))
     case = w["case"]
     rec = {"n": case["n"], "bases": case["bases"], "member": case["member"], "born": case["born"], **w["reference"],
@@ -774,6 +825,9 @@ def replay(ctx: Ctx, path: str) -> int:
            "src_pd": w["observed"]["src"], "doc_pd": w["observed"]["doc"], "early_pd": w["observed"].get("early", [])}
     if case.get("early"):
         rec["early"] = case["early"]
+    rec["late"] = (w.get("model") or {}).get("late") or [False] * case["n"]
+    for k in ("early_pd", "early_base_pd"):
+        rec[k] = (w.get("model") or {}).get(k) or w["observed"].get("early", [])
     if case.get("layout"):
         rec["layout"] = case["layout"]
     obs = observe_batch([(case["h"], rec)])[0]
